@@ -16,7 +16,11 @@ CONF = dict(
           '(own RFC 8915 label/contexts), error class, returned keys/server/port/algorithm/cookies. ke.target: the real client.MeasureClockOffsetIP with NTS: 1..3 '
           'measurements, each needing a new exchange that names a server and/or port or nothing; which of four UDP sockets gets the NTP request and whether it carries the '
           'cookie just issued. ke.own: Fetcher and client against the project\'s StartNTSKEServerIP + StartIPServer: cookies opened with the provider key and compared with '
-          'the client\'s keys, authenticated measurement succeeds. A history is non-trivial (tag nt) when a failed exchange had delivered cookies before failing and is '
+          'the client\'s keys, authenticated measurement succeeds. ke.quic: the same histories (same case format, 150 per quick run + a truncation sweep + every ALPN list) on a '
+          'real Fetcher with QUIC.Enabled against a scripted QUIC/SCION peer (the project\'s scion.ListenQUIC, one AS, empty path; ALPN list per connection attempt, stream '
+          'written in pieces, ended, held open, or the connection dropped before the first byte): a third of them are the D-C20b shapes (first exchange names nothing; named '
+          'target - pool used up or a failure - exchange naming nothing; good exchange - exchange without algorithm record), one history has dial failures (nothing answers, '
+          'handshake timeout) around exchanges; compared field by field with the model of the QUIC branch (default port 10123) and judged by the same oracle. A history is non-trivial (tag nt) when a failed exchange had delivered cookies before failing and is '
           'followed by another FetchData, or when it contains a successful exchange, a failed one and a call answered from the pool; distinct = distinct (kind, input)'),
     assumptions=['theorems about success <=> acceptance conditions, pool = cookies issued and target: records encoded as a conforming server encodes them (15-bit type, 2-byte '
                  'bodies of next-protocol/error/algorithm/port records, empty end record, bodies < 65536 bytes); the record SEQUENCE and the truncation point are arbitrary. '
@@ -24,25 +28,29 @@ CONF = dict(
                  'the TLS exporter is an uninterpreted function of (label, context, length); exporter_ok: the session answers the two RFC 8915 queries (TLS 1.3 always does)',
                  'crypto/tls ALPN negotiation as modelled by tls_negotiate (server picks the first of its protocols the client offered; none in common = fatal alert; a side '
                  'without a list = no ALPN); the server record is used as an IP literal by the client (net.ParseIP), outside the model',
-                 'TLS path only (Fetcher.QUIC.Enabled = false); the QUIC/SCION path (D-C20b, not fixed) is not modelled',
+                 'crypto/tls inside QUIC as modelled by quic_negotiate (RFC 9001 8.1: an application protocol is mandatory; a client offering a list gets a session only if '
+                 'the server selects one of the offered protocols); QUIC/SCION path: both ends in one AS (the path lookup through the SCION daemon is not exercised; a missing '
+                 'path is a dial failure in the model); a Fetcher never changes its transport (theorems and histories are per transport flag)',
                  'histories a client produces: StoreCookie only after a successful FetchData (others are run and compared with the model, the oracle abstains)'],
-    trusted=['modelled, not verified: crypto/tls (handshake, ALPN, exporter), bufio/io.ReadFull/encoding/binary.Read (reads of n bytes succeed exactly when n bytes arrive; proved '
+    trusted=['modelled, not verified: crypto/tls (handshake, ALPN, exporter), quic-go and net/scion QUIC transport (a stream delivers the bytes written before its end), bufio/io.ReadFull/encoding/binary.Read (reads of n bytes succeed exactly when n bytes arrive; proved '
              'independent of segmentation), miscreant AES-SIV (only in the harness, to open the own server\'s cookies)',
-             'the scripted peer (harness/cmd/c20/peer.go) and its independent ExportKeyingMaterial call; error classes are read off error values/messages of net/ntske'],
+             'the scripted peers (harness/cmd/c20/peer.go, quic.go) and their independent ExportKeyingMaterial calls; error classes are read off error values/messages of net/ntske'],
     technique=('Coq proofs over an executable Gallina model: one-iteration function of the ReadData loop generic in the reader, fuel sufficiency, header-parse lemma, induction over '
                'record lists (model loop = specification scan), decomposition of any truncation into complete records + a proper prefix of one record (which always fails), '
-               'simulation between chunked and whole-stream readers, case analysis of exchangeKeys/FetchData, and an invariant between the fetcher state and the oracle\'s '
+               'simulation between chunked and whole-stream readers, case analysis of both branches of exchangeKeys (transport flag) and of FetchData, state-independence of the QUIC branch, and an invariant between the fetcher state and the oracle\'s '
                'own account of the pool preserved by every operation of every history; differential execution of the extracted model and evaluation of the oracle on the '
                'real Fetcher / IP client / key-exchange server every run'),
     level_text=('Theorems hold for all record sequences with conforming encodings (and the implication half for all byte streams), all truncation points, all ALPN lists, all '
-                'segmentations, all exporters and all finite histories of FetchData/StoreCookie calls; the model is tied to net/ntske, core/client and core/server by running '
-                'generated histories on the real code against a scripted TLS peer and the project\'s own servers every run; the C20 oracle is evaluated on the implementation\'s observations'),
+                'segmentations, all exporters, both transports (TLS/TCP and QUIC/SCION) and all finite histories of FetchData/StoreCookie calls on a Fetcher of either transport; the model is tied to net/ntske, core/client and core/server by running '
+                'generated histories on the real code against a scripted TLS peer, a scripted QUIC/SCION peer and the project\'s own servers every run; the C20 oracle is evaluated on the implementation\'s observations'),
     level_note=('Trusted: Coq kernel, hand-written model validated by the correspondence run, extraction, harness, crypto/tls. The TLS branch of exchangeKeys never closes its '
-                'connection (observation, outside the property). D-C20b (QUIC path discards the dialQUIC defaults) is not covered. No axioms.'),
+                'connection (observation, outside the property). D-C20b (QUIC path discarded the dialQUIC defaults; fixed by 38f59d0) is covered: C20_quic_exchange_ignores_previous_state and '
+                'the ke.quic histories (the reverse of the fix is detected). dialQUIC with a remote AS other than the local one and no SCION daemon calls a nil connector '
+                '(observation, not exercised). No axioms.'),
     explanation=('oracle clauses: no connection while cookies are left and the returned keys/target/pool are those of the last exchange minus cookies used plus cookies stored; with an '
                  'empty pool exactly one connection (or a dial error when nothing listens); success iff ALPN ntske/1 and end record reached before any error/unrecognised critical '
                  'record with last algorithm 15 and >= 1 cookie among the completely delivered records; keys equal to the peer\'s exporter output; pool = cookies issued in order; '
-                 'server/port = last named ones or key-exchange host/123; NTP request goes to that socket with the issued cookie; own server: cookies contain the client\'s keys'),
+                 'server/port = last named ones or key-exchange host/123 (over SCION: host of the configured remote address/10123); NTP request goes to that socket with the issued cookie; own server: cookies contain the client\'s keys'),
     timeout_quick=900,
     timeout_thorough=3000,
     min_cases={'ke.hist': 799, 'ke.own': 3, 'ke.quic': 1, 'ke.target': 14},
